@@ -32,6 +32,75 @@ T_VAR = {'BigInteger': 'BIG_INTEGER', 'TextString': 'TEXT_STRING', 'ByteString':
 T_SIZES = {'TAG_SIZE': 3, 'TYPE_SIZE': 1, 'LENGTH_SIZE': 4}
 
 
+def check_value_length_accounting(ctx):
+    """C02.R6: for TextString / ByteString the length field is len(B) of some expression B; write_value must emit exactly len(B) value bytes."""
+    ctx.rule('C02.R6', 'variable-length primitives: the length field is computed as len(B) in the constructor; write_value emits exactly that many value bytes - it iterates over B (or bytearray(B)) and writes one struct-packed single byte per element, or writes B itself once; the padding loop then writes padding_length zero bytes')
+    t = ctx.src.tree(PRIM)
+    n = 0
+    for cname in ('TextString', 'ByteString'):
+        cls = get_class(t, cname)
+        init = get_method(cls, '__init__')
+        wv = get_method(cls, 'write_value')
+        site = '%s:%s %s.write_value' % (PRIM, wv.lineno, cname)
+        basis = [a.value.args[0] for a in walk_local(init) if isinstance(a, ast.Assign) and U(a.targets[0]) == 'self.length' and isinstance(a.value, ast.Call) and call_name(a.value) == 'len' and a.value.args]
+        if len(basis) != 1:
+            raise AnalysisError('C02.R6: %s.__init__ does not compute self.length as len(<expr>) exactly once' % cname)
+        B = U(basis[0])
+        fmt = None
+        for a in cls.body:
+            if isinstance(a, ast.Assign) and U(a.targets[0]) == 'BYTE_FORMAT' and isinstance(a.value, ast.Constant):
+                fmt = a.value.value
+        loops = [x for x in wv.body if isinstance(x, ast.For)]
+        direct = [c for c in walk_local(wv) if isinstance(c, ast.Call) and isinstance(c.func, ast.Attribute) and c.func.attr == 'write' and c.args and U(c.args[0]) == B
+                  and not any(isinstance(p, ast.For) for p in _parents(c))]
+        verdict = None
+        why = ''
+        if direct and len(direct) == 1:
+            verdict, why = True, 'writes %s itself once' % B
+        else:
+            # value loop: iterates over B, a local copy of B, or bytearray(B)
+            aliases = {B}
+            for a in walk_local(wv):
+                if isinstance(a, ast.Assign) and isinstance(a.targets[0], ast.Name) and (U(a.value) == B or (isinstance(a.value, ast.Call) and call_name(a.value) in ('bytearray', 'bytes', 'list') and len(a.value.args) == 1 and U(a.value.args[0]) == B)):
+                    aliases.add(a.targets[0].id)
+            vloops = [l for l in loops if U(l.iter) in aliases or (isinstance(l.iter, ast.Call) and call_name(l.iter) in ('bytearray', 'bytes') and l.iter.args and U(l.iter.args[0]) == B)]
+            if len(vloops) == 1 and isinstance(vloops[0].target, ast.Name):
+                lp = vloops[0]
+                writes = [c for st in lp.body for c in ast.walk(st) if isinstance(c, ast.Call) and isinstance(c.func, ast.Attribute) and c.func.attr == 'write']
+                if len(writes) == 1 and len(lp.body) == 1 and writes[0].args:
+                    w = writes[0].args[0]
+                    if isinstance(w, ast.Call) and (call_name(w) or '').split('.')[-1] == 'pack' and w.args:
+                        f = w.args[0]
+                        fv = f.value if isinstance(f, ast.Constant) else (fmt if U(f) in ('self.BYTE_FORMAT', '%s.BYTE_FORMAT' % cname) else None)
+                        if fv in ('!c', '!B', '!b', 'c', 'B', 'b', '>c', '>B'):
+                            verdict, why = True, 'one byte (%s) per element of %s' % (fv, B)
+                        elif fv is not None:
+                            verdict, why = False, 'packs %s per element of %s: not one byte per counted element' % (fv, B)
+                    elif any(isinstance(x, ast.Name) and x.id == lp.target.id for x in ast.walk(w)):
+                        verdict, why = False, 'writes %s per element of %s without a single-byte pack: an element can contribute several bytes (e.g. a non-ASCII character), while the length field and the padding count elements' % (U(w), B)
+        n += 1
+        if verdict is None:
+            raise AnalysisError('C02.R6: unrecognised value-writing shape in %s.write_value' % cname)
+        ctx.check(verdict, 'C02.R6', '%s.write_value|value-bytes-equal-length' % cname, site, 'length = len(%s); writer %s' % (B, why),
+                  'the length field is len(%s) but the writer %s: length, padding and the enclosing structure lengths no longer describe the bytes written' % (B, why))
+        pad = [l for l in loops if isinstance(l.iter, ast.Call) and call_name(l.iter) == 'range' and l.iter.args and U(l.iter.args[0]) == 'self.padding_length']
+        okp = False
+        if len(pad) == 1 and len(pad[0].body) == 1 and isinstance(pad[0].body[0], ast.Expr) and isinstance(pad[0].body[0].value, ast.Call):
+            wc = pad[0].body[0].value
+            if isinstance(wc.func, ast.Attribute) and wc.func.attr == 'write' and wc.args and isinstance(wc.args[0], ast.Call) and (call_name(wc.args[0]) or '').split('.')[-1] == 'pack':
+                pa = wc.args[0].args
+                okp = len(pa) == 2 and isinstance(pa[0], ast.Constant) and pa[0].value in ('!B', 'B', '!b', 'b', '>B') and isinstance(pa[1], ast.Constant) and pa[1].value == 0
+        ctx.check(okp, 'C02.R6', '%s.write_value|padding-bytes' % cname, site, 'padding_length zero bytes follow the value', 'the padding loop does not write padding_length zero bytes')
+    ctx.count('variable_length_primitives', n, 2)
+
+
+def _parents(n):
+    p = getattr(n, '_parent', None)
+    while p is not None:
+        yield p
+        p = getattr(p, '_parent', None)
+
+
 def run(ctx):
     src = ctx.src
     for rid, text in (
@@ -281,3 +350,4 @@ def run(ctx):
     ctx.not_decided += ['byte identity of primitive encodings with an independent implementation for all values', 'two\'s-complement correctness of BigInteger for all values',
                         'well-formedness of attribute/credential values whose class is chosen at run time']
     ctx.assumptions += ['T_TYPES / T_FIXED / T_SIZES transcribe KMIP 1.x section 9.1', 'struct module semantics']
+    check_value_length_accounting(ctx)
